@@ -63,3 +63,22 @@ Theorem C24_uniq_violations_exact_refuted :
   /\ existsb (fun p => fst p =? vt_unique) v = true.
 Proof. exact uniq_violations_exact_refuted. Qed.
 Print Assumptions C24_uniq_violations_exact_refuted.
+
+(* ---- merges in which the FOREIGN KEY is new (value reference to a non-pk column): C24/Corr2.v ---- *)
+From Dolt Require Import C24.Corr2 C24.FkAddProofs.
+
+Theorem C24_fkadd_dangling_exact :
+  forall (rws : rows) (k : N),
+    In k (fkb_viols rws) <->
+    exists a x, In (k, a, Some x) rws /\ is_parent k = false
+                /\ ~ (exists pk pa, In (pk, pa, Some x) rws /\ is_parent pk = true).
+Proof. exact fkadd_dangling_exact. Qed.
+Print Assumptions C24_fkadd_dangling_exact.
+
+Theorem C24_fkadd_oracle_on_model : forall i : fk_input, fk_oracle i (fk_model i) = true.
+Proof. exact fkadd_oracle_on_model. Qed.
+Print Assumptions C24_fkadd_oracle_on_model.
+
+Theorem C24_fkadd_check_on_model : forall i : fk_input, check_any (F2 (i, fk_model i)) = 0.
+Proof. exact fkadd_check_on_model. Qed.
+Print Assumptions C24_fkadd_check_on_model.
